@@ -414,7 +414,7 @@ void execute_decode(const Plan& plan) {
             break;
           }
           case kLocalTable: { Label l = a.new_label(); labels.push_back(l); embed_site(l); break; }
-          case kRipData: { if (target != 0) break; Label l = a.new_label(); labels.push_back(l); mem_site(l, op.a[1] & 0xff); break; }
+          case kRipData: { if (target != 0) break; Label l = a.new_label(); labels.push_back(l); mem_site(l, (op.a[1] & 0x100) ? -int64_t(op.a[1] & 0xff) : int64_t(op.a[1] & 0xff)); break; }
           default: nops(size_t(op.a[0] % 17)); break;
         }
       }
@@ -434,7 +434,7 @@ void execute_decode(const Plan& plan) {
       if (!r.chance(1, 2)) continue;
       if (data_section) a.section(r.chance(1, 2) ? data_section : code.text_section());
       if (target == 2) a.align(AlignMode::kZero, 4);
-      if (target == 0 && r.chance(1, 2)) mem_site(l, int64_t(r.below(200))); else embed_site(l);
+      if (target == 0 && r.chance(1, 2)) mem_site(l, int64_t(r.below(400)) - 200); else embed_site(l);
       sim::count("c04.probe.decode_backward_reference");
     }
     Error err = code.flatten();
@@ -484,7 +484,7 @@ void execute_decode(const Plan& plan) {
       if (target != 0) for (auto& s : sites) if (s.kind == 1 && s.end - s.start == 4 && ((base + code.label_offset_from_base(s.label)) > 0xffffffffull || base + code.label_offset_from_base(s.label) < base)) { legit = true; sim::count("c04.probe.decode_abs32_field_unreachable_reported"); }
       // (x86-32: an image that would extend past the end of the 4 GiB address space cannot be placed there at all.)
       // ([label+disp] operands use displacements up to 255 here, which may cross the end as well.)
-      if (target == 0 && base + code.code_size() + 256 > 0x100000000ull) { legit = true; sim::count("c04.probe.decode_image_wraps_address_space"); }
+      if (target == 0 && (base + code.code_size() + 256 > 0x100000000ull || base < 256 /* or a negative displacement reaches below address 0 */)) { legit = true; sim::count("c04.probe.decode_image_wraps_address_space"); }
       SIM_CHECK(legit, "c04:relocation-failed", "relocate_to_base(%#llx) failed with error %u although every target can be reached (directly or through the address table)", (unsigned long long)base, unsigned(err));
       sim::count("c04.probe.decode_relocation_error");
     }
